@@ -252,6 +252,24 @@ func oracleC08(res *Result, c *Case) {
 	} else if !anyPanic && anyGot != anyWant {
 		res.fail(c, "C08.isany", fmt.Sprintf("IsAny=%v disjunction=%v", anyGot, anyWant), "C08:isany")
 	}
+	// ... for reference lists without identity matches, in both orders
+	for k, sl := range refSublists(c.Refs) {
+		res.OracleEvals["C08.isany_sublists"]++
+		want, pan := false, false
+		for _, r := range sl {
+			if ok, _ := catch(func() {
+				if errors.Is(e, r) {
+					want = true
+				}
+			}); !ok {
+				pan = true
+			}
+		}
+		var got bool
+		if ok, _ := catch(func() { got = errors.IsAny(e, sl...) }); ok && !pan && got != want {
+			res.fail(c, "C08.isany", fmt.Sprintf("IsAny over reference sublist %d (%d references) = %v, the disjunction of Is is %v", k, len(sl), got, want), "C08:isany-sublist")
+		}
+	}
 	// nil
 	res.OracleEvals["C08.nil"]++
 	if errors.Is(nil, e) || !errors.Is(nil, nil) || errors.Is(e, nil) {
